@@ -15,6 +15,7 @@ def drive(ck, tier, seed, api, want, jobs, mode="fork", label=""):
         res = core.Result.from_json(r["res"])
         part = "%s %s %d-%s" % (label or api, job["family"], job["n"], job["conn"])
         ck.add(part, res, sample=0)
+        ck.validated += r.get("tv", 0)
         for s in r["sigs"]:
             ck.sigs.add("%s:%s:%s" % (job["n"], job["conn"], s))
         if r["sample"] and n < 12 and (job["family"] == "F3" or job.get("cls", 0) > 0):
